@@ -51,21 +51,35 @@ def judge(run, cases, rows):
 def check(run):
     n = 250 if run.tier == "quick" else 5000
     run.proof_obligations()
-    cases = arb.generate(run, n)
+    cases = arb.generate(run, n, ctl=True)
     rows = arb.evaluate(run, cases, fn="c03_case")
     judge(run, cases, rows)
+    # the layer that applies the batches: real lbc.sync -> processChanges / processChangesFromGlobalConfiguration -> Configurator
+    part = [c for c in cases if not c.get("error")][: (100 if run.tier == "quick" else 2000)]
+    crow = arb.evaluate(run, part, fn="ctl_case", extra=arb.ctl_term, tag="arbctl")
+    arb.judge_files(run, part, crow, "C03")
+    arb.judge_delivery(run, part, crow, "C03", "the batch that would apply the change is never computed")
+    run.cov["controller_level_histories"] = len(part)
     for c in cases[:2]:
         run.sample(arb.summarize_case(c))
     run.cov["changes_total"] = sum(len(s["changes"]) for c in cases for s in c["histories"][0]["steps"])
     run.cov["rule"] = ("histories of the arb harness (see C01) with GlobalConfiguration edits that change exactly one attribute of one listener (port / ipv4 / ipv6 / ssl / protocol / "
                        "name), TransportServer protocol flips, delete-and-recreate with a new UID; after every event the implementation's own change batch is applied to a shadow "
-                       "(delete removes the key, addOrUpdate stores the attributes the config is rendered from) which must equal GetResources(); non-trivial = the history emitted >= 2 changes")
+                       "(delete removes the key, addOrUpdate stores the attributes the config is rendered from) which must equal GetResources(); non-trivial = the history emitted >= 2 changes; "
+                       "controller level: the same histories through the real lbc.sync / processChanges / processChangesFromGlobalConfiguration / Configurator over a manager that remembers the files: "
+                       "one file per active resource after every event, and every event that differs from the last one about its object is passed on by the real informer handler")
     run.cov["trusted_base"] = arb.TRUSTED
     run.assumptions += ["attributes rendered from = everything in the Resource except warnings; the spec of an object is identified by (UID, generation, annotation set) (K3)"]
 
 
 def replay(run, path):
-    cases = arb.replay_cases(run, path)
+    cases = arb.replay_cases(run, path, ctl=True)
+    crow = arb.evaluate(run, cases, fn="ctl_case", extra=arb.ctl_term, tag="arbctl")
+    for c in cases:
+        if not c.get("error") and c["id"] in crow:
+            print("replay case %d (controller level): first step where files != active resources = %d; first undelivered event = %d" % (c["id"], crow[c["id"]][arb.DFILES], crow[c["id"]][arb.DD]))
+    arb.judge_files(run, cases, crow, "C03")
+    arb.judge_delivery(run, cases, crow, "C03", "the batch that would apply the change is never computed")
     rows = arb.evaluate(run, cases, fn="c03_case")
     for c in cases:
         if not c.get("error"):
